@@ -57,283 +57,290 @@ def run(ck):
     R6 = ck.rule('R18.6', "continuation test: after sending number k the loop continues iff "
                  "count is None or k < count (exactly `count` repetitions)", 'ordering domain', 2)
 
-    # ------------------------------------------------------------------ R18.1
-    n_send = 0
-    for fi in (ev, mt):
-        g = ck.cfg(fi.fid, 'M0')
-        for s in nodes_where(g, lambda n: any(call_name(c) == 'send' and recv(c) == 'self._repeated_event'
-                                              for c in node_calls(n))):
-            n_send += 1
-            c = [c for c in node_calls(s, 'send')][0]
-            rep = kw(c, 'repeat')
-            preds = [g.nodes[p] for p, lab in g.pred[s.id]]
-            ok = rep is not None and len(preds) == 1 and preds[0].kind == 'stmt' and \
-                any(call_name(x) == 'set_output' and recv(x) == 'self' and
-                    [norm(a) for a in x.args] == [norm(rep)] for x in node_calls(preds[0]))
-            ck.ob(R1, f"{fi.fid} :: {norm1(s.ast)}", ok,
-                  f"set_output({norm(rep)}) immediately precedes the send with repeat={norm(rep)}"
-                  if ok else
-                  "the output is not set to the repeat number that is sent (or not immediately "
-                  "before the send)", fi, s.ast)
-            okd = [norm(a) for a in c.args] == ['self'] and \
-                any(k.arg is None and norm(k.value) == 'data' for k in c.keywords) and \
-                {k.arg for k in c.keywords} == {None, 'repeat'}
-            ck.ob(R2, f"{fi.fid} :: send arguments", okd,
-                  "send(self, **data, repeat=...)" if okd else
-                  f"the repeated event is sent as `{norm(c)}`: the original data items are not "
-                  f"forwarded unchanged with the Repeat block as source", fi, s.ast)
-    ck.need(R1, n_send == 2, f"expected two send sites of the repeated event, found {n_send}")
-    first = [c for c in own_nodes(ev.node) if isinstance(c, ast.Call) and call_name(c) == 'send']
-    ok = bool(first) and is_const(kw(first[0], 'repeat'), 0)
-    ck.ob(R1, f"{ev.fid} :: original event is number 0", ok,
-          "the immediately forwarded event carries repeat=0" if ok else
-          "the immediately forwarded event does not carry repeat=0", ev, first[0] if first else ev.node)
-    sites = sorted({f.fid for f in rp.methods.values() for x in own_nodes(f.node)
-                    if isinstance(x, ast.Call) and call_name(x) == 'set_output'})
-    ir = m.get('init_regular')
-    ok = sites == sorted([ev.fid, mt.fid, ir.fid]) and any(
-        isinstance(x, ast.Call) and call_name(x) == 'set_output' and is_const(x.args[0], 0)
-        for x in own_nodes(ir.node))
-    ck.ob(R1, f"{RP} :: set_output sites", ok, f"set_output sites: {sites}; init sets 0" if ok
-          else f"unexpected set_output sites {sites}", ir, ir.node)
+    with ck.section('R18.1'):
+        # ------------------------------------------------------------------ R18.1
+        n_send = 0
+        for fi in (ev, mt):
+            g = ck.cfg(fi.fid, 'M0')
+            for s in nodes_where(g, lambda n: any(call_name(c) == 'send' and recv(c) == 'self._repeated_event'
+                                                  for c in node_calls(n))):
+                n_send += 1
+                c = [c for c in node_calls(s, 'send')][0]
+                rep = kw(c, 'repeat')
+                preds = [g.nodes[p] for p, lab in g.pred[s.id]]
+                ok = rep is not None and len(preds) == 1 and preds[0].kind == 'stmt' and \
+                    any(call_name(x) == 'set_output' and recv(x) == 'self' and
+                        [norm(a) for a in x.args] == [norm(rep)] for x in node_calls(preds[0]))
+                ck.ob(R1, f"{fi.fid} :: {norm1(s.ast)}", ok,
+                      f"set_output({norm(rep)}) immediately precedes the send with repeat={norm(rep)}"
+                      if ok else
+                      "the output is not set to the repeat number that is sent (or not immediately "
+                      "before the send)", fi, s.ast)
+                okd = [norm(a) for a in c.args] == ['self'] and \
+                    any(k.arg is None and norm(k.value) == 'data' for k in c.keywords) and \
+                    {k.arg for k in c.keywords} == {None, 'repeat'}
+                ck.ob(R2, f"{fi.fid} :: send arguments", okd,
+                      "send(self, **data, repeat=...)" if okd else
+                      f"the repeated event is sent as `{norm(c)}`: the original data items are not "
+                      f"forwarded unchanged with the Repeat block as source", fi, s.ast)
+        ck.need(R1, n_send == 2, f"expected two send sites of the repeated event, found {n_send}")
+        first = [c for c in own_nodes(ev.node) if isinstance(c, ast.Call) and call_name(c) == 'send']
+        ok = bool(first) and is_const(kw(first[0], 'repeat'), 0)
+        ck.ob(R1, f"{ev.fid} :: original event is number 0", ok,
+              "the immediately forwarded event carries repeat=0" if ok else
+              "the immediately forwarded event does not carry repeat=0", ev, first[0] if first else ev.node)
+        sites = sorted({f.fid for f in rp.methods.values() for x in own_nodes(f.node)
+                        if isinstance(x, ast.Call) and call_name(x) == 'set_output'})
+        ir = m.get('init_regular')
+        ok = sites == sorted([ev.fid, mt.fid, ir.fid]) and any(
+            isinstance(x, ast.Call) and call_name(x) == 'set_output' and is_const(x.args[0], 0)
+            for x in own_nodes(ir.node))
+        ck.ob(R1, f"{RP} :: set_output sites", ok, f"set_output sites: {sites}; init sets 0" if ok
+              else f"unexpected set_output sites {sites}", ir, ir.node)
 
-    # ------------------------------------------------------------------ R18.2
-    g = ck.cfg(ev.fid, 'M0')
-    dpar = ev.node.args.args[2].arg
-    osrc = nodes_where(g, lambda n: isinstance(n.ast, ast.Assign) and
-                       norm(n.ast.targets[0]) == f"{dpar}['orig_source']")
-    sends = nodes_calling(g, 'send')
-    enq = nodes_where(g, lambda n: any(call_name(c) == 'put_nowait' and recv(c) == 'self._queue'
-                                       for c in node_calls(n)))
-    ok = len(osrc) == 1 and len(sends) == 1 and len(enq) == 1 and \
-        norm(osrc[0].ast.value) in (f"{dpar}.get('source')", f"{dpar}['source']") and \
-        g.dominates(osrc[0], sends[0]) and g.dominates(sends[0], enq[0]) and \
-        [norm(a) for a in node_calls(enq[0], 'put_nowait')[0].args] == [dpar]
-    ck.ob(R2, f"{ev.fid} :: orig_source, send, enqueue", ok,
-          "orig_source = the sender's source, then the synchronous send, then the same data "
-          "object is queued for repetition" if ok else
-          "the original sender is not saved before the send, or the data is not queued for "
-          "repetition after it", ev, osrc[0].ast if osrc else ev.node)
-    gm = ck.cfg(mt.fid, 'M1')
-    deq = nodes_where(gm, lambda n: isinstance(n.ast, ast.Assign) and any(
-        isinstance(a, ast.Await) and 'self._queue.get()' in norm(a.value) for a in walk_shallow(n.ast)))
-    ok = len(deq) == 2 and all(norm(d.ast.targets[0]) == 'data' for d in deq)
-    msend = nodes_calling(gm, 'send')
-    rd = ck.rdefs(mt.fid, 'M1')
-    if ok and msend:
-        defs = rd.defs_at(msend[0], 'data')
-        ok = bool(defs) and all(d in deq for d in defs)
-    ck.ob(R2, f"{mt.fid} :: latest data", ok,
-          "the re-sent data is always the most recently dequeued event" if ok else
-          "the main task may re-send something else than the most recently dequeued data", mt,
-          msend[0].ast if msend else mt.node)
-    rvar = None
-    if msend:
-        rep = kw(node_calls(msend[0], 'send')[0], 'repeat')
-        rvar = norm(rep) if rep is not None else None
-    resets = nodes_where(gm, lambda n: isinstance(n.ast, ast.Assign) and norm(n.ast.targets[0]) == rvar
-                         and is_const(n.ast.value, 0))
-    okr = rvar is not None and len(deq) == 2
-    wit = None
-    for d in deq:
-        # after a successful dequeue (normal continuation) the number is reset before it is used
-        for v, lab in gm.succ[d.id]:
-            if lab == 'exc':
-                continue
-            nxt = gm.nodes[v]
-            if nxt in resets:
-                continue
-            p = gm.path_avoiding(nxt, msend + [gm.exit], avoid=resets)
-            if p is not None:
-                okr = False
-                wit = p
-    ck.ob(R2, f"{mt.fid} :: numbering restarts", okr and bool(resets),
-          f"after each dequeue `{rvar} = 0` before the next send: a newer event restarts the "
-          f"numbering" if okr and resets else
-          "a newly arrived event does not restart the repeat numbering on every dequeue path",
-          mt, deq[0].ast if deq else mt.node, witness=path_witness(gm, wit))
-    incs = nodes_where(gm, lambda n: isinstance(n.ast, ast.AugAssign) and norm(n.ast.target) == rvar)
-    hto = [n for n in gm.nodes if n.kind == 'handler' and gm.pred[n.id] and 'TimeoutError' in norm(n.ast.type)]
-    ok = len(incs) == 1 and isinstance(incs[0].ast.op, ast.Add) and is_const(incs[0].ast.value, 1) and \
-        len(hto) == 1 and gm.dominates(hto[0], incs[0])
-    ck.ob(R2, f"{mt.fid} :: increment on time-out only", ok,
-          f"`{rvar} += 1` happens exactly in the TimeoutError arm of the interval wait" if ok else
-          "the repeat number is not incremented by one exactly when the interval elapsed", mt,
-          incs[0].ast if incs else mt.node)
-    wf = [a for a in own_nodes(mt.node) if isinstance(a, ast.Await) and isinstance(a.value, ast.Call)
-          and norm(a.value.func) == 'asyncio.wait_for']
-    ok = len(wf) == 1 and [norm(x) for x in wf[0].value.args] == ['self._queue.get()', 'self._interval']
-    ck.ob(R2, f"{mt.fid} :: interval wait", ok,
-          "while repeating, the wait for a newer event is bounded by self._interval" if ok else
-          "the repetition wait is not wait_for(self._queue.get(), self._interval)", mt,
-          wf[0] if wf else mt.node)
-    skip = nodes_where(gm, lambda n: n.kind == 'test' and norm(n.ast) in (f'{rvar} > 0', f'0 < {rvar}',
-                                                                         f'{rvar} >= 1', f'{rvar} != 0'))
-    ok = len(skip) == 1 and bool(msend) and gm.has_guard(msend[0], norm(skip[0].ast), True)
-    ck.ob(R2, f"{mt.fid} :: original not re-sent", ok,
-          "number 0 (already forwarded by _event) is not sent again by the task" if ok else
-          "the main task also sends repeat number 0 (the original would be delivered twice)", mt,
-          skip[0].ast if skip else mt.node)
-
-    # ------------------------------------------------------------------ R18.3
-    foreign = [r for r in return_nodes(g) if any('etype' in t and p for t, p in g.guard_texts(r))]
-    test_ok = any(g.has_guard(r, 'etype != self._repeated_event.etype', True) for r in foreign)
-    forb = effect_nodes(g, calls=('set_output', 'send', 'put_nowait'))
-    if foreign and test_ok:
-        effect_free_to(ck, R3, f"{ev.fid} :: other types", ev, g, foreign, forb,
-                       "an event of another type has no effect (one-time log only)")
-    else:
-        ck.ob(R3, f"{ev.fid} :: other types", False,
-              "no effect-free return under `etype != self._repeated_event.etype`", ev, ev.node)
-
-    # ------------------------------------------------------------------ R18.4
-    ei = prog.func('block:Event.__init__')
-    ge = ck.cfg(ei.fid, 'M0')
-    mk = nodes_where(ge, lambda n: any(norm(c.func) in ('sblocks1.Repeat', 'Repeat') for c in node_calls(n)))
-    ok = len(mk) == 1 and ge.has_guard(mk[0], 'repeat is not None', True)
-    if ok:
-        c = [c for c in node_calls(mk[0]) if norm(c.func) in ('sblocks1.Repeat', 'Repeat')][0]
-        kws = {k.arg: norm(k.value) for k in c.keywords}
-        ok = kws.get('dest') == 'dest' and kws.get('etype') == 'etype' and kws.get('interval') == 'repeat' \
-            and kws.get('count') == 'count' and isinstance(mk[0].ast, ast.Assign) and \
-            norm(mk[0].ast.targets[0]) == 'dest'
-        dw = nodes_writing_attr(ge, '_dest')
-        ew = nodes_writing_attr(ge, '_etype')
-        ok = ok and all(norm(written_value(w, '_dest')) == 'dest' and mk[0].id not in ge.reachable_from(w)
-                        for w in dw) and all(norm(written_value(w, '_etype')) == 'etype' for w in ew) and \
-            bool(dw) and bool(ew)
-    ck.ob(R4, f"{ei.fid} :: implicit Repeat", ok,
-          "Repeat(dest=dest, etype=etype, interval=repeat, count=count) becomes the Event's "
-          "destination; the event type is kept" if ok else
-          "Event(..., repeat=) does not create Repeat(dest=dest, etype=etype, interval=repeat, "
-          "count=count) as its destination", ei, mk[0].ast if mk else ei.node)
-    cr = nodes_where(ge, lambda n: isinstance(n.ast, ast.Raise) and ge.has_guard(n, 'repeat is not None', False)
-                     and ge.has_guard(n, 'count is not None', True), kinds=('stmt',))
-    ck.ob(R4, f"{ei.fid} :: count without repeat", bool(cr),
-          "count without repeat raises" if cr else "count without repeat is silently accepted", ei, ei.node)
-    gi = ck.cfg(ini.fid, 'M0')
-    rs = nodes_where(gi, lambda n: isinstance(n.ast, ast.Raise), kinds=('stmt',))
-
-    def raised_under(text, pol=True):
-        return any(gi.has_guard(r, text, pol) for r in rs)
-    ck.ob(R4, f"{ini.fid} :: EventCond refused", raised_under('isinstance(etype, block.EventCond)'),
-          "a conditional event cannot be repeated", ini, ini.node)
-    # the two argument checks, decided by evaluating "is a raise reached?" on a value grid
-    from sa.minieval import MiniEval
-
-    def raises_for(env_):
-        """Does __init__ reach one of its raise statements for these argument values?  Only the
-        `if <test>: raise` statements whose test can be evaluated from env_ take part."""
-        # first choice: run the whole constructor (any layout) with stand-ins for what it calls
-        a_ = ini.node.args
-        env = {'dest': 'DEST', 'etype': 'put', 'interval': 5, 'count': None,
-               'isinstance(etype, block.EventCond)': False, 'block.Event': lambda *a, **k: 'EVENT',
-               'utils.time_period': lambda x: x, 'super().__init__': lambda *a, **k: None}
-        if a_.vararg:
-            env[a_.vararg.arg] = ()
-        if a_.kwarg:
-            env[a_.kwarg.arg] = {}
-        for k_, v_ in env_.items():
-            env['interval' if k_ == 'self._interval' else k_] = v_
-        try:
-            res = MiniEval(R4, env).run(ini.node.body)
-            return res[0] in ('raise', 'fault')
-        except AnalysisError:
-            pass
-        hit = False
-        for st_ in ini.node.body:
-            if isinstance(st_, ast.If) and st_.body and isinstance(st_.body[-1], ast.Raise) and not st_.orelse:
-                try:
-                    v_ = MiniEval(R4, env_).ev(st_.test)
-                except AnalysisError:
+    with ck.section('R18.2'):
+        # ------------------------------------------------------------------ R18.2
+        g = ck.cfg(ev.fid, 'M0')
+        dpar = ev.node.args.args[2].arg
+        osrc = nodes_where(g, lambda n: isinstance(n.ast, ast.Assign) and
+                           norm(n.ast.targets[0]) == f"{dpar}['orig_source']")
+        sends = nodes_calling(g, 'send')
+        enq = nodes_where(g, lambda n: any(call_name(c) == 'put_nowait' and recv(c) == 'self._queue'
+                                           for c in node_calls(n)))
+        ok = len(osrc) == 1 and len(sends) == 1 and len(enq) == 1 and \
+            norm(osrc[0].ast.value) in (f"{dpar}.get('source')", f"{dpar}['source']") and \
+            g.dominates(osrc[0], sends[0]) and g.dominates(sends[0], enq[0]) and \
+            [norm(a) for a in node_calls(enq[0], 'put_nowait')[0].args] == [dpar]
+        ck.ob(R2, f"{ev.fid} :: orig_source, send, enqueue", ok,
+              "orig_source = the sender's source, then the synchronous send, then the same data "
+              "object is queued for repetition" if ok else
+              "the original sender is not saved before the send, or the data is not queued for "
+              "repetition after it", ev, osrc[0].ast if osrc else ev.node)
+        gm = ck.cfg(mt.fid, 'M1')
+        deq = nodes_where(gm, lambda n: isinstance(n.ast, ast.Assign) and any(
+            isinstance(a, ast.Await) and 'self._queue.get()' in norm(a.value) for a in walk_shallow(n.ast)))
+        ok = len(deq) == 2 and all(norm(d.ast.targets[0]) == 'data' for d in deq)
+        msend = nodes_calling(gm, 'send')
+        rd = ck.rdefs(mt.fid, 'M1')
+        if ok and msend:
+            defs = rd.defs_at(msend[0], 'data')
+            ok = bool(defs) and all(d in deq for d in defs)
+        ck.ob(R2, f"{mt.fid} :: latest data", ok,
+              "the re-sent data is always the most recently dequeued event" if ok else
+              "the main task may re-send something else than the most recently dequeued data", mt,
+              msend[0].ast if msend else mt.node)
+        rvar = None
+        if msend:
+            rep = kw(node_calls(msend[0], 'send')[0], 'repeat')
+            rvar = norm(rep) if rep is not None else None
+        resets = nodes_where(gm, lambda n: isinstance(n.ast, ast.Assign) and norm(n.ast.targets[0]) == rvar
+                             and is_const(n.ast.value, 0))
+        okr = rvar is not None and len(deq) == 2
+        wit = None
+        for d in deq:
+            # after a successful dequeue (normal continuation) the number is reset before it is used
+            for v, lab in gm.succ[d.id]:
+                if lab == 'exc':
                     continue
-                except Exception:       # a fault of the evaluated test (e.g. None <= 0)
-                    v_ = 'fault'
-                hit = hit or bool(v_)
-        return hit
-    badi = [v_ for v_ in (None, -1, 0, 0.0, 0.5, 5) if
-            raises_for({'self._interval': v_}) != (v_ is None or v_ <= 0)]
-    ck.abstract_cases += 6
-    ck.ob(R4, f"{ini.fid} :: positive interval", not badi,
-          "interval None / <= 0 raises, a positive interval is accepted (6 values)" if not badi else
-          f"for interval = {badi} the constructor {'does not raise' if (badi[0] is None or badi[0] <= 0) else 'raises'}"
-          f" (documented: the interval must be positive)", ini, ini.node)
-    badc = [v_ for v_ in (None, -2, -1, 0, 1, 3) if
-            raises_for({'count': v_}) != (v_ is not None and v_ < 0)]
-    ck.abstract_cases += 6
-    ck.ob(R4, f"{ini.fid} :: count", not badc,
-          "a negative count raises; None and count=0 (no repetition) are accepted (6 values)" if not badc else
-          f"for count = {badc} the constructor decides wrongly (negative counts must raise, None / 0 / "
-          f"positive counts must be accepted)", ini, ini.node)
-    re_w = nodes_writing_attr(gi, '_repeated_event')
-    ok = len(re_w) == 1 and norm(written_value(re_w[0], '_repeated_event')) == 'block.Event(dest, etype)'
-    cw = nodes_writing_attr(gi, '_count')
-    iw = nodes_writing_attr(gi, '_interval')
-    ok = ok and len(cw) == 1 and norm(written_value(cw[0], '_count')) == 'count' and len(iw) == 1 and \
-        norm(written_value(iw[0], '_interval')) == 'utils.time_period(interval)'
-    ck.ob(R4, f"{ini.fid} :: configuration stored", ok,
-          "the repeated event is Event(dest, etype); interval and count are stored as given" if ok
-          else "Repeat does not store Event(dest, etype), time_period(interval) and count", ini, ini.node)
+                nxt = gm.nodes[v]
+                if nxt in resets:
+                    continue
+                p = gm.path_avoiding(nxt, msend + [gm.exit], avoid=resets)
+                if p is not None:
+                    okr = False
+                    wit = p
+        ck.ob(R2, f"{mt.fid} :: numbering restarts", okr and bool(resets),
+              f"after each dequeue `{rvar} = 0` before the next send: a newer event restarts the "
+              f"numbering" if okr and resets else
+              "a newly arrived event does not restart the repeat numbering on every dequeue path",
+              mt, deq[0].ast if deq else mt.node, witness=path_witness(gm, wit))
+        incs = nodes_where(gm, lambda n: isinstance(n.ast, ast.AugAssign) and norm(n.ast.target) == rvar)
+        hto = [n for n in gm.nodes if n.kind == 'handler' and gm.pred[n.id] and 'TimeoutError' in norm(n.ast.type)]
+        ok = len(incs) == 1 and isinstance(incs[0].ast.op, ast.Add) and is_const(incs[0].ast.value, 1) and \
+            len(hto) == 1 and gm.dominates(hto[0], incs[0])
+        ck.ob(R2, f"{mt.fid} :: increment on time-out only", ok,
+              f"`{rvar} += 1` happens exactly in the TimeoutError arm of the interval wait" if ok else
+              "the repeat number is not incremented by one exactly when the interval elapsed", mt,
+              incs[0].ast if incs else mt.node)
+        wf = [a for a in own_nodes(mt.node) if isinstance(a, ast.Await) and isinstance(a.value, ast.Call)
+              and norm(a.value.func) == 'asyncio.wait_for']
+        ok = len(wf) == 1 and [norm(x) for x in wf[0].value.args] == ['self._queue.get()', 'self._interval']
+        ck.ob(R2, f"{mt.fid} :: interval wait", ok,
+              "while repeating, the wait for a newer event is bounded by self._interval" if ok else
+              "the repetition wait is not wait_for(self._queue.get(), self._interval)", mt,
+              wf[0] if wf else mt.node)
+        skip = nodes_where(gm, lambda n: n.kind == 'test' and norm(n.ast) in (f'{rvar} > 0', f'0 < {rvar}',
+                                                                             f'{rvar} >= 1', f'{rvar} != 0'))
+        ok = len(skip) == 1 and bool(msend) and gm.has_guard(msend[0], norm(skip[0].ast), True)
+        ck.ob(R2, f"{mt.fid} :: original not re-sent", ok,
+              "number 0 (already forwarded by _event) is not sent again by the task" if ok else
+              "the main task also sends repeat number 0 (the original would be delivered twice)", mt,
+              skip[0].ast if skip else mt.node)
 
-    # ------------------------------------------------------------------ R18.5
-    names = [cname_.name if hasattr(cname_, 'name') else str(cname_) for cname_ in rp.mro]
-    ok = 'AddonMainTask' in names and names.index('AddonMainTask') < names.index('SBlock')
-    ck.ob(R5, f"{RP} :: main-task add-on", ok,
-          "Repeat's task is started/cancelled/awaited by AddonMainTask (C08 R08.7)" if ok else
-          "Repeat is not an AddonMainTask block: its task is not cancelled at stop", None,
-          f"{rp.module.path}:{rp.node.lineno}")
-    senders = sorted({f.fid for f in rp.methods.values() for x in own_nodes(f.node)
-                      if isinstance(x, ast.Call) and call_name(x) == 'send'})
-    ck.ob(R5, f"{RP} :: senders", senders == sorted([ev.fid, mt.fid]),
-          f"events are sent by {senders} only", None, f"{rp.module.path}:{rp.node.lineno}")
-    st = m.get('start')
-    gs = ck.cfg(st.fid, 'M0')
-    qn = nodes_writing_attr(gs, '_queue')
-    ok = len(qn) == 1 and norm(written_value(qn[0], '_queue')) == 'asyncio.Queue()' and \
-        must_pass(gs, gs.entry, qn, [gs.exit]) is None and not st.is_async
-    ck.ob(R5, st.fid, ok, "start() creates the (FIFO) queue synchronously, before the task's "
-          "first step can run" if ok else "Repeat.start does not create its queue", st, st.node)
-    superchain(ck, R5, 'start', classes={RP})
+    with ck.section('R18.3'):
+        # ------------------------------------------------------------------ R18.3
+        foreign = [r for r in return_nodes(g) if any('etype' in t and p for t, p in g.guard_texts(r))]
+        test_ok = any(g.has_guard(r, 'etype != self._repeated_event.etype', True) for r in foreign)
+        forb = effect_nodes(g, calls=('set_output', 'send', 'put_nowait'))
+        if foreign and test_ok:
+            effect_free_to(ck, R3, f"{ev.fid} :: other types", ev, g, foreign, forb,
+                           "an event of another type has no effect (one-time log only)")
+        else:
+            ck.ob(R3, f"{ev.fid} :: other types", False,
+                  "no effect-free return under `etype != self._repeated_event.etype`", ev, ev.node)
 
-    # ------------------------------------------------------------------ R18.7
-    _r18_7(ck, R7, rp, ev, mt)
+    with ck.section('R18.4'):
+        # ------------------------------------------------------------------ R18.4
+        ei = prog.func('block:Event.__init__')
+        ge = ck.cfg(ei.fid, 'M0')
+        mk = nodes_where(ge, lambda n: any(norm(c.func) in ('sblocks1.Repeat', 'Repeat') for c in node_calls(n)))
+        ok = len(mk) == 1 and ge.has_guard(mk[0], 'repeat is not None', True)
+        if ok:
+            c = [c for c in node_calls(mk[0]) if norm(c.func) in ('sblocks1.Repeat', 'Repeat')][0]
+            kws = {k.arg: norm(k.value) for k in c.keywords}
+            ok = kws.get('dest') == 'dest' and kws.get('etype') == 'etype' and kws.get('interval') == 'repeat' \
+                and kws.get('count') == 'count' and isinstance(mk[0].ast, ast.Assign) and \
+                norm(mk[0].ast.targets[0]) == 'dest'
+            dw = nodes_writing_attr(ge, '_dest')
+            ew = nodes_writing_attr(ge, '_etype')
+            ok = ok and all(norm(written_value(w, '_dest')) == 'dest' and mk[0].id not in ge.reachable_from(w)
+                            for w in dw) and all(norm(written_value(w, '_etype')) == 'etype' for w in ew) and \
+                bool(dw) and bool(ew)
+        ck.ob(R4, f"{ei.fid} :: implicit Repeat", ok,
+              "Repeat(dest=dest, etype=etype, interval=repeat, count=count) becomes the Event's "
+              "destination; the event type is kept" if ok else
+              "Event(..., repeat=) does not create Repeat(dest=dest, etype=etype, interval=repeat, "
+              "count=count) as its destination", ei, mk[0].ast if mk else ei.node)
+        cr = nodes_where(ge, lambda n: isinstance(n.ast, ast.Raise) and ge.has_guard(n, 'repeat is not None', False)
+                         and ge.has_guard(n, 'count is not None', True), kinds=('stmt',))
+        ck.ob(R4, f"{ei.fid} :: count without repeat", bool(cr),
+              "count without repeat raises" if cr else "count without repeat is silently accepted", ei, ei.node)
+        gi = ck.cfg(ini.fid, 'M0')
+        rs = nodes_where(gi, lambda n: isinstance(n.ast, ast.Raise), kinds=('stmt',))
 
-    # ------------------------------------------------------------------ R18.6
-    g0 = ck.cfg(mt.fid, 'M0')
-    cont = nodes_where(g0, lambda n: isinstance(n.ast, ast.Assign) and norm(n.ast.targets[0]) == 'repeating'
-                       and not isinstance(n.ast.value, ast.Constant))
-    ck.need(R6, len(cont) == 1 and rvar is not None, "Repeat._maintask: continuation assignment "
-            "`repeating = ...` not recognised (unknown structure)")
-    expr = cont[0].ast.value
-    good = True
-    cases = 0
-    for cnt in (None, 0, 1, 3):
-        for k in range(0, 5):
-            env = {'self._count': cnt, rvar: k}
+        def raised_under(text, pol=True):
+            return any(gi.has_guard(r, text, pol) for r in rs)
+        ck.ob(R4, f"{ini.fid} :: EventCond refused", raised_under('isinstance(etype, block.EventCond)'),
+              "a conditional event cannot be repeated", ini, ini.node)
+        # the two argument checks, decided by evaluating "is a raise reached?" on a value grid
+        from sa.minieval import MiniEval
+
+        def raises_for(env_):
+            """Does __init__ reach one of its raise statements for these argument values?  Only the
+            `if <test>: raise` statements whose test can be evaluated from env_ take part."""
+            # first choice: run the whole constructor (any layout) with stand-ins for what it calls
+            a_ = ini.node.args
+            env = {'dest': 'DEST', 'etype': 'put', 'interval': 5, 'count': None,
+                   'isinstance(etype, block.EventCond)': False, 'block.Event': lambda *a, **k: 'EVENT',
+                   'utils.time_period': lambda x: x, 'super().__init__': lambda *a, **k: None}
+            if a_.vararg:
+                env[a_.vararg.arg] = ()
+            if a_.kwarg:
+                env[a_.kwarg.arg] = {}
+            for k_, v_ in env_.items():
+                env['interval' if k_ == 'self._interval' else k_] = v_
             try:
-                it = Interp(R6, env, 'ordering')
-                # `is None` tests are needed here: evaluate manually
-                val = _eval_cont(expr, env)
-            except Exception:
-                good = False
-                break
-            cases += 1
-            ck.abstract_cases += 1
-            want = cnt is None or k < cnt
-            good = good and (bool(val) == want)
-    ck.ob(R6, f"{mt.fid} :: continue iff count is None or k < count", good,
-          f"evaluated on {cases} (count, k) pairs: exactly `count` repetitions are sent" if good
-          else f"`{norm(expr)}` is not equivalent to `count is None or k < count` on the grid "
-          f"count in {{None,0,1,3}} x k in 0..4", mt, cont[0].ast)
-    # the test uses the number just sent: it follows the send in the loop body
-    after = bool(msend) and cont[0].id in g0.reachable_from(g0.node_of(node_calls(msend[0], 'send')[0])[0]) \
-        if msend else False
-    whl = [n for n in g0.nodes if n.kind == 'test' and isinstance(n.stmt, ast.While)]
-    used = nodes_where(g0, lambda n: n.kind == 'test' and norm(n.ast) in ('not repeating', 'repeating'))
-    ck.ob(R6, f"{mt.fid} :: test position", bool(after) and bool(used),
-          "the continuation is decided after the send and consulted at the top of the next "
-          "iteration" if after and used else
-          "the continuation test does not follow the send / is not consulted", mt, cont[0].ast)
+                res = MiniEval(R4, env).run(ini.node.body)
+                return res[0] in ('raise', 'fault')
+            except AnalysisError:
+                pass
+            hit = False
+            for st_ in ini.node.body:
+                if isinstance(st_, ast.If) and st_.body and isinstance(st_.body[-1], ast.Raise) and not st_.orelse:
+                    try:
+                        v_ = MiniEval(R4, env_).ev(st_.test)
+                    except AnalysisError:
+                        continue
+                    except Exception:       # a fault of the evaluated test (e.g. None <= 0)
+                        v_ = 'fault'
+                    hit = hit or bool(v_)
+            return hit
+        badi = [v_ for v_ in (None, -1, 0, 0.0, 0.5, 5) if
+                raises_for({'self._interval': v_}) != (v_ is None or v_ <= 0)]
+        ck.abstract_cases += 6
+        ck.ob(R4, f"{ini.fid} :: positive interval", not badi,
+              "interval None / <= 0 raises, a positive interval is accepted (6 values)" if not badi else
+              f"for interval = {badi} the constructor {'does not raise' if (badi[0] is None or badi[0] <= 0) else 'raises'}"
+              f" (documented: the interval must be positive)", ini, ini.node)
+        badc = [v_ for v_ in (None, -2, -1, 0, 1, 3) if
+                raises_for({'count': v_}) != (v_ is not None and v_ < 0)]
+        ck.abstract_cases += 6
+        ck.ob(R4, f"{ini.fid} :: count", not badc,
+              "a negative count raises; None and count=0 (no repetition) are accepted (6 values)" if not badc else
+              f"for count = {badc} the constructor decides wrongly (negative counts must raise, None / 0 / "
+              f"positive counts must be accepted)", ini, ini.node)
+        re_w = nodes_writing_attr(gi, '_repeated_event')
+        ok = len(re_w) == 1 and norm(written_value(re_w[0], '_repeated_event')) == 'block.Event(dest, etype)'
+        cw = nodes_writing_attr(gi, '_count')
+        iw = nodes_writing_attr(gi, '_interval')
+        ok = ok and len(cw) == 1 and norm(written_value(cw[0], '_count')) == 'count' and len(iw) == 1 and \
+            norm(written_value(iw[0], '_interval')) == 'utils.time_period(interval)'
+        ck.ob(R4, f"{ini.fid} :: configuration stored", ok,
+              "the repeated event is Event(dest, etype); interval and count are stored as given" if ok
+              else "Repeat does not store Event(dest, etype), time_period(interval) and count", ini, ini.node)
+
+    with ck.section('R18.5'):
+        # ------------------------------------------------------------------ R18.5
+        names = [cname_.name if hasattr(cname_, 'name') else str(cname_) for cname_ in rp.mro]
+        ok = 'AddonMainTask' in names and names.index('AddonMainTask') < names.index('SBlock')
+        ck.ob(R5, f"{RP} :: main-task add-on", ok,
+              "Repeat's task is started/cancelled/awaited by AddonMainTask (C08 R08.7)" if ok else
+              "Repeat is not an AddonMainTask block: its task is not cancelled at stop", None,
+              f"{rp.module.path}:{rp.node.lineno}")
+        senders = sorted({f.fid for f in rp.methods.values() for x in own_nodes(f.node)
+                          if isinstance(x, ast.Call) and call_name(x) == 'send'})
+        ck.ob(R5, f"{RP} :: senders", senders == sorted([ev.fid, mt.fid]),
+              f"events are sent by {senders} only", None, f"{rp.module.path}:{rp.node.lineno}")
+        st = m.get('start')
+        gs = ck.cfg(st.fid, 'M0')
+        qn = nodes_writing_attr(gs, '_queue')
+        ok = len(qn) == 1 and norm(written_value(qn[0], '_queue')) == 'asyncio.Queue()' and \
+            must_pass(gs, gs.entry, qn, [gs.exit]) is None and not st.is_async
+        ck.ob(R5, st.fid, ok, "start() creates the (FIFO) queue synchronously, before the task's "
+              "first step can run" if ok else "Repeat.start does not create its queue", st, st.node)
+        superchain(ck, R5, 'start', classes={RP})
+
+    with ck.section('R18.7'):
+        # ------------------------------------------------------------------ R18.7
+        _r18_7(ck, R7, rp, ev, mt)
+
+    with ck.section('R18.6'):
+        # ------------------------------------------------------------------ R18.6
+        g0 = ck.cfg(mt.fid, 'M0')
+        cont = nodes_where(g0, lambda n: isinstance(n.ast, ast.Assign) and norm(n.ast.targets[0]) == 'repeating'
+                           and not isinstance(n.ast.value, ast.Constant))
+        ck.need(R6, len(cont) == 1 and rvar is not None, "Repeat._maintask: continuation assignment "
+                "`repeating = ...` not recognised (unknown structure)")
+        expr = cont[0].ast.value
+        good = True
+        cases = 0
+        for cnt in (None, 0, 1, 3):
+            for k in range(0, 5):
+                env = {'self._count': cnt, rvar: k}
+                try:
+                    it = Interp(R6, env, 'ordering')
+                    # `is None` tests are needed here: evaluate manually
+                    val = _eval_cont(expr, env)
+                except Exception:
+                    good = False
+                    break
+                cases += 1
+                ck.abstract_cases += 1
+                want = cnt is None or k < cnt
+                good = good and (bool(val) == want)
+        ck.ob(R6, f"{mt.fid} :: continue iff count is None or k < count", good,
+              f"evaluated on {cases} (count, k) pairs: exactly `count` repetitions are sent" if good
+              else f"`{norm(expr)}` is not equivalent to `count is None or k < count` on the grid "
+              f"count in {{None,0,1,3}} x k in 0..4", mt, cont[0].ast)
+        # the test uses the number just sent: it follows the send in the loop body
+        after = bool(msend) and cont[0].id in g0.reachable_from(g0.node_of(node_calls(msend[0], 'send')[0])[0]) \
+            if msend else False
+        whl = [n for n in g0.nodes if n.kind == 'test' and isinstance(n.stmt, ast.While)]
+        used = nodes_where(g0, lambda n: n.kind == 'test' and norm(n.ast) in ('not repeating', 'repeating'))
+        ck.ob(R6, f"{mt.fid} :: test position", bool(after) and bool(used),
+              "the continuation is decided after the send and consulted at the top of the next "
+              "iteration" if after and used else
+              "the continuation test does not follow the send / is not consulted", mt, cont[0].ast)
 
 
 def _key_removed(g, var, key):
